@@ -223,6 +223,19 @@ def tree2parameter(
         raise exceptions.UnknownTreeTypeError(datatype=s.data, atom="Parameter")
 
 
+def same_definition(first: atoms.Atom, second: atoms.Atom) -> bool:
+    """Check if two atoms with the same name are the same definition"""
+    if first is second:
+        return True
+    if type(first) is not type(second):
+        return False
+    if isinstance(first, atoms.Assignment) and isinstance(second, atoms.Assignment):
+        if first.value is None or second.value is None:
+            return first.value is second.value
+        return first.value.tree == second.value.tree
+    return first.value == second.value
+
+
 class TreeToODE(lark.Transformer):
     """Transform a lark tree to an ODE
 
@@ -310,6 +323,10 @@ class TreeToODE(lark.Transformer):
         # breakpoint()
 
         comments = []
+        # Atoms are collected in sets, and two atoms can compare equal even though
+        # they are defined differently (e.g. two assignments with the same name and
+        # the same dependencies). Make sure that each name is only defined once
+        definitions: dict[str, atoms.Atom] = {}
         for line in s:  # Each line in the block
             if isinstance(line, atoms.Comment):
                 comments.append(line)
@@ -320,6 +337,9 @@ class TreeToODE(lark.Transformer):
                 continue
 
             for atom in line:  # State, Parameters or Assignment
+                other = definitions.setdefault(atom.name, atom)
+                if not same_definition(other, atom):
+                    raise exceptions.DuplicateSymbolError({atom.name})
                 for component in atom.components:
                     components[component][mapping[type(atom)]].add(atom)
 
